@@ -9,7 +9,8 @@ re-parsed from its bytes.
   S3  the composed Lean model (drv_c10 `p...` commands: `Obj/Dispatch.lean` dispatching into C17's `Obj/Props.lean`
       through `Obj/DispatchProps.lean`) prints the same signals and replies - reply kind, serial, destination,
       signature, the variant / dictionary a peer decodes, error name and text where the code decides them (`errv`
-      where Python does);
+      where Python does: name and text of those replies are NOT compared with the model, their classes are counted in
+      the evidence); user methods that take a Properties member away from the library (`hijack`) and which instance ran;
   S4  the monitor, from the property text only: at most one reply per call; exactly one when a reply is expected; none
       for a NO_REPLY_EXPECTED call that is dispatched to its implementation; REPLY_SERIAL = the call's serial and
       DESTINATION = the call's sender; UnknownObject / UnknownMethod / InvalidArgs for the failed lookups.
@@ -118,7 +119,20 @@ def gen_case(rng):
             out.append(['export', rng.choice(inited)])
         elif r < 0.24:
             out.append(extra_call(rng, nobj, ifnames, pnames))
-    return {'classes': classes, 'nobj': nobj, 'ctor': True, 'ops': out}
+    case = {'classes': classes, 'nobj': nobj, 'ctor': True, 'ops': out}
+    # WHO serves the Properties interface: in some scenarios the most derived class takes a member away from the
+    # library - `dbus_Get` / `dbus_Set` (a `dbus_<member>` method serves the member on EVERY interface), an undecorated
+    # method under the NAME of the library's Get function (the decorator table takes functions by name from the
+    # instance) - or a class redeclares the interface (without methods: its members are then unknown)
+    r = rng.random()
+    if r < 0.12:
+        kinds = rng.sample(['dbus_Get', 'dbus_Set', 'libget-by-name'], rng.randrange(1, 3))
+        case['hijack'] = [{'kind': kd, 'fid': 50 + n, 'ret': None if kd == 'dbus_Set' else
+                           rng.choice([['S', 'hijacked'], ['I', 7], ['B', True], ['L', ['a', 'b']]])}
+                          for n, kd in enumerate(kinds)]
+    elif r < 0.17:
+        classes[rng.randrange(len(classes))]['ifaces'].insert(0, {'name': PROPS, 'props': []})
+    return case
 
 
 # ----------------------------------------------------------------------------- the implementation side
@@ -185,6 +199,17 @@ class Run:
     def stat(self, k):
         self.stats[k] = self.stats.get(k, 0) + 1
 
+    def make_user(self, fid, name, value):
+        """A user method that records (function, instance) and returns `value`."""
+        run = self
+
+        def f(self, *args):
+            run.invs.append((fid, len(args), self))
+            return value
+        f.__name__ = f.__qualname__ = name
+        f._fid = fid
+        return f
+
     def problem(self, key, what, k, observed=None, expected=None):
         self.problems.append((key, what, k, observed, expected))
 
@@ -197,6 +222,18 @@ class Run:
         if impl.failed is not None:
             self.skipped = impl.failed      # a declaration the library refuses: C17's subject
             return
+        self.invs = []
+        self.hijacked = {}
+        for hj in case.get('hijack', []):
+            name = hj['kind']
+            if name == 'libget-by-name':
+                lib = [n for n, f in vars(objects.DBusObject).items() if inspect.isfunction(f)
+                       and L.deco_of_library(objects, f, C.LOC_NOTES) == (PROPS, 'Get')]
+                if not lib:
+                    continue
+                name = lib[0]
+            setattr(impl.cls, name, self.make_user(hj['fid'], name, h.to_py(hj['ret']) if hj['ret'] else None))
+            self.hijacked[hj['fid']] = hj
         self.model_lines = class_lines(case) + ['pbase']
         self.impl_lines = ['ok'] + impl.decl_lines + [' '.join(C.Built.class_tokens(objects.DBusObject))]
         self.n_prefix = len(self.model_lines)
@@ -254,6 +291,7 @@ class Run:
                                serial=op['serial'], notes=C.LOC_NOTES)
             msg = message.parseMessage(raw, [])
             n0 = len(impl.conn.sent)
+            del self.invs[:]
             raised = None
             try:
                 handler.handleMethodCallMessage(msg)
@@ -261,7 +299,13 @@ class Run:
                 raised = e
             sent = impl.conn.sent[n0:]
             canon = [canon_sent(m, op, impl.objidx) for m in sent]
-            line = ' | '.join(c[0] for c in canon) if canon else 'none'
+            parts = ['inv %d %d -' % (fid, na) for fid, na, _ in self.invs] + [c[0] for c in canon]
+            line = ' | '.join(parts) if parts else 'none'
+            for fid, na, inst in self.invs:
+                # the method that ran is the one of the object exported at the addressed path
+                if exported.get(path) is True and inst is not impl.objs[impl.paths.index(path)]:
+                    self.problem('wrong-instance-run', 'a method of ANOTHER object than the one exported at %s ran' % path,
+                                 k, line, path)
             if raised is not None:
                 line += ' | RAISED ' + type(raised).__name__
             self.impl_lines.append(line)
@@ -272,6 +316,9 @@ class Run:
             toks = ['pcall', hx(path), opt_hex(op['iface']), hx(op['member']), opt_hex(op['sig']), opt_hex(op['sender']),
                     str(op['serial']), '1' if op['expectReply'] else '0'] + C.enc_tokens(menc) + [str(len(op['body']))]
             toks += [arg_tok(a, is_set and n == 2) for n, a in enumerate(op['body'])]
+            toks.append(str(len(self.hijacked)))
+            for fid, hj in sorted(self.hijacked.items()):
+                toks += [str(fid), 'N' if hj['ret'] is None else 'V' + h.tok(hj['ret'])]
             self.model_lines.append(' '.join(toks))
             self.monitor(k, op, path, exported, canon, raised, line)
 
@@ -309,6 +356,8 @@ class Run:
             verdict = 'unknown-object'
         elif pair == MANAGED:
             verdict = 'builtin'
+        elif op['iface'] == PROPS and any(f['name'] == PROPS for c in self.case['classes'] for f in c['ifaces']):
+            verdict = 'unknown-method'      # the redeclared Properties interface (it has no methods) comes first
         elif op['iface'] in (PROPS, None) and op['member'] in PROP_SIGS:
             verdict = 'run' if (op['sig'] or '') == PROP_SIGS[op['member']] else 'invalid-args'
         elif op['iface'] == PROPS or op['iface'] is None:
@@ -318,6 +367,12 @@ class Run:
         else:
             verdict = 'unknown-method'      # an interface of the object without methods
         self.stat('verdict=%s' % verdict)
+        if self.invs:
+            self.stat('a user method served the Properties member (%s)' % self.hijacked[self.invs[0][0]]['kind'])
+        for c in canon:
+            if c[0].startswith('errv ') and c[1] is not None:
+                # name and text of these replies are Python's: not compared with the model, counted here
+                self.stat('errv class=' + (c[1].error_name or '')[len(PY_PREFIX):])
         self.stat('call=%s%s' % (op['member'] if op['iface'] in (PROPS, None) and op['member'] in PROP_SIGS else
                                  'builtin' if pair in (PEER, INTRO, MANAGED) else 'other',
                                  '' if op['expectReply'] else ' (no reply expected)'))
